@@ -41,8 +41,8 @@ static void t_trims(const char *s) {
 /* ---- unchar / rev / upper / lower ---------------------------------------------------------------- */
 static void t_misc(const char *s) {
     size_t n = strlen(s);
-    static const char HT[][2] = {{'"', '"'}, {'a', 'B'}, {':', ':'}};
-    for (int k = 0; k < 3; k++) {
+    char HT[5][2] = {{'"', '"'}, {'a', 'B'}, {':', ':'}, {(char)0xAB, (char)0xBB}, {n ? s[0] : 'x', n ? s[n - 1] : 'x'}};   /* the last pair always matches when n >= 2, whatever the bytes are */
+    for (int k = 0; k < 5; k++) {
         char *x = xs(s); char *r = qstrunchar(x, HT[k][0], HT[k][1]);
         bool match = n >= 2 && s[0] == HT[k][0] && s[n - 1] == HT[k][1];
         if (match ? (r != x || strlen(x) != n - 2 || memcmp(x, s + 1, n - 2)) : (r != NULL || strcmp(x, s))) bad("qstrunchar", "wrong", s, "head=%c tail=%c result %s", HT[k][0], HT[k][1], vf_hex(x, strlen(x)));
